@@ -1957,6 +1957,78 @@ func stolen(c *lib.Ctx, tries int) (fails []lib.OracleFail) {
 	return
 }
 
+// ---------------------------------------------------------------- re-wiring a torn-down writer
+
+// relink: the only step that can raise the liveness measure of a writer all of whose linked
+// readers are closed is a re-wiring Link (Props/C03.lean: C03.relink_can_increase – the stale drop
+// notice of the re-linked reader is counted again). The histories of C03.relink_released on the
+// real code: a writer linked to readers 0 and 1, one request taken by both; reader 0 is unlinked
+// and closed (its drop notice is for a link generation that is gone), reader 1 is closed, and
+// reader 0 is linked again before, between or after the two closes. The model: the requester is
+// released with the dropped error in all three.
+func relink(c *lib.Ctx, tries int) (fails []lib.OracleFail) {
+	for i := 0; i < tries; i++ {
+		pos := i % 3
+		w := packet.NewWriter()
+		r0, r1 := packet.NewReader(), packet.NewReader()
+		w.Link(r0)
+		w.Link(r1)
+		res := make(chan reqRes, 1)
+		go func() {
+			var rr reqRes
+			defer func() {
+				if p := recover(); p != nil {
+					rr.panicked = fmt.Sprint(p)
+				}
+				res <- rr
+			}()
+			rr.pck = packet.Send(w, packet.New(types.NewInt64(1)))
+		}()
+		for _, r := range []*packet.Reader{r0, r1} {
+			select {
+			case <-r.Read():
+			case <-time.After(watchdog):
+				fails = append(fails, lib.OracleFail{Class: "lost-request", What: "relink scenario: the request never reached a reader"})
+				return
+			}
+		}
+		w.Unlink(r0)
+		if pos == 0 {
+			w.Link(r0)
+		}
+		r0.Close()
+		if pos == 1 {
+			w.Link(r0)
+		}
+		r1.Close()
+		if pos == 2 {
+			w.Link(r0)
+		}
+		replay := fmt.Sprintf("w.Link(r0); w.Link(r1); go Send(w, pck); <-r0.Read(); <-r1.Read(); w.Unlink(r0); r0.Close(); r1.Close() with w.Link(r0) at position %d (0 before, 1 between, 2 after the closes)", pos)
+		select {
+		case rr := <-res:
+			c.Hit(fmt.Sprintf("relink-%d", pos))
+			c.Count("")
+			switch {
+			case rr.panicked != "":
+				fails = append(fails, lib.OracleFail{Class: "panic", What: "relink scenario: Send panicked: " + rr.panicked, Replay: replay})
+			case rr.pck == nil:
+				fails = append(fails, lib.OracleFail{Class: "nil-packet", What: "relink scenario: Send returned nil", Replay: replay})
+			case canon(rr.pck) != "E0":
+				fails = append(fails, lib.OracleFail{Class: "wrong-answer", What: "relink scenario: Send returned " + canon(rr.pck) + "; the model (C03.relink_released) says the dropped error", Replay: replay})
+			}
+		case <-time.After(watchdog):
+			fails = append(fails, lib.OracleFail{Class: "blocked", What: "relink scenario: the requester of a writer whose linked readers are all closed was not released after the writer was wired to a closed reader again", Replay: replay})
+			return
+		}
+		w.Close()
+		if len(fails) > 0 {
+			return
+		}
+	}
+	return
+}
+
 // ---------------------------------------------------------------- Run
 
 func progressPath(c *lib.Ctx) string {
@@ -2120,6 +2192,9 @@ func Run(c *lib.Ctx) {
 
 	// 4. Send's own guard
 	fails = append(fails, stolen(c, c.Scale(40, 300))...)
+
+	// 5. re-wiring a writer whose readers are closed (the step excluded by C03.teardown_releases_readers_partial)
+	fails = append(fails, relink(c, c.Scale(60, 300))...)
 
 	for k, n := range knownSeen {
 		c.Extra["known-"+k] = fmt.Sprintf("%d oracle failures of this class were attributed to the known finding", n)
